@@ -15,7 +15,9 @@ RULE = ('A real Crazyflie opens a link (deterministic scheduler, virtual timers)
         'resending link request i is transmitted at t0 + n*timeout exactly while unanswered and the link is open; never after its matching '
         'reply was dispatched; a reply cancels only the longest matching pattern; reliable link: exactly once; nothing entered on a closed '
         'link; no request of session s in session s+1; no retry timer alive after the link is closed. Non-trivial = a reply that races a '
-        'timer instant, >= 2 patterns with a shared prefix, or a reopen within one timeout of a pending request.')
+        'timer instant, >= 2 patterns with a shared prefix, or a reopen within one timeout of a pending request. Sub "directed" enumerates: a '
+        'request that needed 0..3 repetitions, then the same request again within one timeout; a link error around the instant a pending '
+        'request is due again with the application reopening the link from inside the notification (several schedules).')
 ASSUMPTIONS = ['patterns of simultaneously pending requests are distinct (identical patterns are indistinguishable by design)',
                'a transmission instant that coincides exactly with the dispatch instant of the matching reply is accepted either way',
                'virtual time: computation instantaneous, timers exact']
